@@ -11,6 +11,7 @@ import (
 
 	"github.com/anishathalye/porcupine"
 	"github.com/lugu/qiloop/bus"
+	"github.com/lugu/qiloop/bus/net"
 	"github.com/lugu/qiloop/type/basic"
 	"github.com/lugu/qiloop/type/object"
 	"github.com/lugu/qiloop/type/value"
@@ -569,8 +570,137 @@ func cancelledWrite() {
 	}
 	vrt.Observe("werr=%v events=%v", werr != nil, events)
 }
+// burst: a subscriber that does not read while several clients write a burst
+// of values (well within the documented capacity of a subscription), then
+// reads: it receives every accepted write exactly once.
+func burst() {
+	w := fx.Start(bus.Yes{})
+	cs := w.MustConnect()
+	_, ch, err := cs.Probe(1).SubscribeLevel()
+	if err != nil {
+		vrt.Failf("harness/subscribe", "%v", err)
+		return
+	}
+	writers := []probe.ProbeProxy{w.MustConnect().Probe(1), w.MustConnect().Probe(1), w.MustConnect().Probe(1)}
+	vrt.Quiesce()
+	vrt.Explore()
+	const per = 10
+	var ws []*vrt.Thread
+	for i, p := range writers {
+		i, p := i, p
+		ws = append(ws, vrt.GoWorker(fmt.Sprintf("writer%d", i), func() {
+			for k := 0; k < per; k++ {
+				v := int32(100*(i+1) + k)
+				if err := p.SetLevel(v); err != nil {
+					vrt.Failf("write-refused/burst", "SetLevel(%d) failed: %v", v, err)
+				}
+			}
+		}))
+	}
+	vrt.Quiesce()
+	fx.Settle(ws...)
+	var events []int32
+	vrt.GoNamed("late-reader", func() {
+		for v := range ch {
+			events = append(events, v)
+		}
+	})
+	vrt.Quiesce()
+	seen := map[int32]int{}
+	for _, v := range events {
+		seen[v]++
+	}
+	missing, dup := 0, 0
+	for i := range writers {
+		for k := 0; k < per; k++ {
+			switch seen[int32(100*(i+1)+k)] {
+			case 0:
+				missing++
+			case 1:
+			default:
+				dup++
+			}
+		}
+	}
+	if missing > 0 || dup > 0 || len(events) != per*len(writers) {
+		vrt.Failf("events-differ-from-accepted-writes/burst", "%d writes were accepted while the subscriber was not reading; once it read it received %d events (%d writes without event, %d announced more than once)", per*len(writers), len(events), missing, dup)
+	}
+	// per-writer order
+	last := map[int32]int32{}
+	for _, v := range events {
+		if v <= last[v/100] {
+			vrt.Failf("event-order/burst", "events of one writer out of order: %v", events)
+			break
+		}
+		last[v/100] = v
+	}
+	vrt.Observe("events=%d", len(events))
+}
+
+// duplicateLink: a raw client registers for the property's events with a link
+// id that another connection already uses on the object: it is either refused
+// with an error, or it really is subscribed - never told "subscribed" and then
+// left without events.
+func duplicateLink() {
+	w := fx.Start(bus.Yes{})
+	first, second := w.RawPeer(), w.RawPeer()
+	first.StartDrain()
+	second.StartDrain()
+	if !first.Authenticate("", "") || !second.Authenticate("", "") {
+		vrt.Failf("harness/auth", "raw peers could not authenticate")
+		return
+	}
+	same := vrt.ChooseFree(2, "second registration: same signal / other signal of the object") == 0
+	reg1 := func(p *fx.Peer, signal uint32, link uint64) (uint32, bool) {
+		id := p.NextID()
+		var b bytes.Buffer
+		basic.WriteUint32(1, &b)
+		basic.WriteUint32(signal, &b)
+		basic.WriteUint64(link, &b)
+		p.Send(net.Call, w.ServiceID, 1, 0, id, b.Bytes())
+		vrt.Quiesce()
+		rs := p.Replies(id)
+		return id, len(rs) == 1 && rs[0].Hdr.Type == net.Reply
+	}
+	vrt.Explore()
+	if _, ok := reg1(first, 107, 1); !ok {
+		vrt.Failf("harness/register", "the first registration was refused")
+		return
+	}
+	signal := uint32(107)
+	if !same {
+		signal = 105
+	}
+	_, accepted := reg1(second, signal, 1)
+	// one write and one tick
+	if err := w.MustConnect().Probe(1).SetLevel(33); err != nil {
+		vrt.Failf("write-refused/duplicate-link", "%v", err)
+	}
+	w.Root.Helper.SignalTick(4)
+	vrt.Quiesce()
+	count := func(p *fx.Peer, action uint32) int {
+		n := 0
+		for _, f := range p.Got {
+			if f.Hdr.Type == net.Event && f.Hdr.Action == action {
+				n++
+			}
+		}
+		return n
+	}
+	if count(first, 107) != 1 {
+		vrt.Failf("events-differ-from-accepted-writes/duplicate-link", "the first subscriber received %d change events for one accepted write (a second connection used its link id)", count(first, 107))
+	}
+	if accepted && count(second, signal) != 1 {
+		vrt.Failf("subscribed-but-no-event/duplicate-link", "a registration with a link id already in use on the object was answered with success, but the connection received %d events of action %d for one emission", count(second, signal), signal)
+	}
+	vrt.Observe("same=%v accepted=%v", same, accepted)
+}
 
 func init() {
+	reg.Register(&reg.Scenario{Property: "C14", Name: "burst-before-reading", Body: burst, Quick: 0, Thorough: 1,
+		Doc: "three clients write ten values each while the subscriber does not read (30 pending events, the subscription queue holds 100); then it reads: every accepted write exactly once, each writer's in order"})
+	reg.Register(&reg.Scenario{Property: "C14", Name: "link-id-already-in-use", Body: duplicateLink, Quick: 0, Thorough: 1,
+		Doc: "a raw client registers for events with a link id another connection already uses on the object (same signal / other signal): refused with an error, or really subscribed"})
 	reg.Register(&reg.Scenario{Property: "C14", Name: "cancelled-write", Body: cancelledWrite, Quick: 2, Thorough: 3,
 		Doc: "a client write waits in the mailbox behind a slow call; its context is cancelled; then the object is released and another write follows: the cancelled write takes effect at most once", MustFlag: []string{"writer-told-cancelled"}})
 	reg.Register(&reg.Scenario{Property: "C14", Name: "broken-subscriber", Body: brokenSubscriber, Quick: 1, Thorough: 2,
